@@ -63,6 +63,8 @@ OptEncSigs ==
   \* slices and strings as Option payloads: the std spelling only (DiplomatOption is documented for primitive, enum and
   \* struct payloads); a scalar follows the option so that a wrong record size shifts it
   \cup {Sg(K("opq"), <<OptT("std", t), P("u16")>>, FALSE, UnitT) : t \in OptSlicePayload}
+  \* a BORROWED opaque as the error arm (C++: diplomat::result<T, const Opq&>, a different accessor overload than value errors)
+  \cup {Sg(K("opq"), <<>>, FALSE, ResT(a, K("opq"))) : a \in {P("u8"), UnitT, P("i64")}}
   \* a VALIDATED string parameter next to a result whose success arm is unit (bindings that check the string first wrap the method's
   \* own outcome in a second result: the inner arm must survive)
   \cup {Sg(K("opq"), <<StrT("utf8", FALSE)>>, FALSE, r) : r \in {ResT(UnitT, EnumT), ResT(UnitT, UnitT), OptT("std", UnitT), OptT("dipl", UnitT),
